@@ -5,6 +5,7 @@
 mod archive;
 mod cli;
 mod enc;
+mod keys;
 mod repair;
 mod util;
 mod writer;
@@ -51,6 +52,7 @@ fn main() {
         }
         "c09" => writer::c09_cases(&mut rng, &tier, &mut out),
         "c01" => archive::c01_cases(&mut rng, &tier, &mut out),
+        "keys-tester" => keys::tester(),
         "c16" => cli::c16_cases(&mut rng, &tier, &mut out),
         "c02" => repair::c02_cases(&mut rng, &tier, &mut out),
         "c05" => repair::c05_cases(&mut rng, &tier, &mut out),
